@@ -77,12 +77,12 @@ Proof.
     eexists; split; [reflexivity|]. cbn [wf active bvals blen]. rewrite L', L, N', N. cbn.
     exact (conj W' (conj eq_refl (conj eq_refl eq_refl))).
   - destruct (gb_empty_ok o Ho) as (g & E & W & L & N & _). rewrite E. cbn [bind].
-    destruct (gb_append_ok o g 0 Ho W) as (g0 & E0 & W0 & L0 & N0 & _). rewrite E0. cbn [bind]. rewrite E. cbn [bind].
+    destruct (gb_append_ok o g 0 Ho W) as (g0 & E0 & W0 & L0 & N0 & _). rewrite E0. cbn [bind].
     unfold string_after.
     destruct (gb_extend_ok o s g Ho W) as (gc & Ec & Wc & Lc & Nc). rewrite Ec. cbn [bind].
     destruct (gb_append_ok o g0 (glen gc) Ho W0) as (g1 & E1 & W1 & L1 & N1 & _). rewrite E1. cbn [bind].
     eexists; split; [reflexivity|]. cbn [wf active bvals blen].
-    rewrite L1, L0, L, Lc, N1, N0, N, Nc. cbn [app]. rewrite Z.add_0_l.
+    rewrite L1, L0, Lc, L, N1, N0, Nc, N. cbn [app]. rewrite !Z.add_0_l.
     assert (okoff [0; zlen s] (zlen s)) as OK.
     { change [0; zlen s] with ([0] ++ [zlen s]). pose proof (zlen_nonneg s).
       apply okoff_snoc with (n := 0); [apply okoff_single| cbn |]; lia. }
@@ -170,13 +170,13 @@ Proof.
   rewrite zip_app by exact EL. split; [|split; [reflexivity|]].
   - split; [exact Wt'|split; [exact Wi'|split; [lia|split; [tauto|split; [|split]]]]].
     + apply Forall_app. split; [now apply zip_fill_iota_ok|].
-      constructor; [|constructor]. cbn [fst snd Z.to_nat nth]. unfold zlen; cbn [length]. rewrite Bn. lia.
+      constructor; [|constructor]. cbn [fst snd]. change (Z.to_nat 1) with 1%nat. cbn [nth].
+      unfold zlen; cbn [length]. rewrite Bn. lia.
     + intros _. constructor; [exact A|constructor; [exact An|constructor]].
     + intros H; exfalso; apply H; reflexivity.
   - rewrite map_app. cbn [map]. rewrite Vn. f_equal.
-    + unfold fill, iota. rewrite <- (bvals_len b W). unfold zlen. rewrite Nat2Z.id.
-      apply (ulookup_pair_iota (bvals b) [v] []).
-    + cbn [zip map]. reflexivity.
+    unfold fill, iota. rewrite <- (bvals_len b W). unfold zlen. rewrite Nat2Z.id.
+    apply (ulookup_pair_iota (bvals b) [v] []).
 Qed.
 
 End WithOpts.
